@@ -292,7 +292,7 @@ def check_triple(data: dict, lab: Labels) -> None:
 
 
 def st_triple(ctx: Ctx):
-    g = T.TreeGen(leaves=ctx.pick(8, 14), origin_rate=0.35, strs=None)
+    g = T.TreeGen(leaves=ctx.pick(8, 14), origin_rate=0.35, strs=None, servals=True, nan=True)
     return st.fixed_dictionaries(
         {
             "tree": st.one_of(g.inner_tree(), g.inner_tree(), g.tree()),
